@@ -59,6 +59,8 @@ def walk(case, on_step):
                     if obj.capacity * obj.expansion_rate > 4096:
                         continue
                     ret = core.call(obj.expand)
+                elif op[0] == "export":
+                    ret = core.call(lambda: len(bytes(obj)))  # exporting is an operation too: the table is what it was
                 elif op[0] == "reload":
                     cls = type(obj)
 
@@ -142,6 +144,8 @@ def gen_case(rng, counting=None, tiny=True, reload=True):
             ops.append(("expand",))
         elif reload:
             ops.append(("reload",))
+            if rng.random() < 0.6:
+                ops.append(("export",))
     return {"kind": kind, "cap": cap, "b": b, "swaps": swaps, "rate": rate, "auto": auto, "fsz": fsz, "ops": ops, "seed": rng.randrange(2**32), "keys": keys,
             # a user-supplied hash function in a third of the cases: every path has to use the configured one
             "hash": rng.choice(["fnv", "fnv", "custom"])}
